@@ -27,6 +27,10 @@ type LoopSpec struct {
 type GhostDecl struct {
 	Name string
 	Sort string // "int","bool","map[int]int"...
+	// Protocol: a ghost that only records knowledge for a precondition elsewhere (last read epoch, last validated
+	// object ...). A callee that does not list it leaves it unchanged as far as its callers are concerned, and no
+	// frame obligation is generated for it.
+	Protocol bool
 }
 
 // Contract of one function (in /repo or trusted).
@@ -390,7 +394,7 @@ func (cs *ContractSet) parseContractText(file, pkgName string, text string) erro
 		case "ghost":
 			f := strings.Fields(rest)
 			if len(f) == 2 {
-				cur.Ghost = append(cur.Ghost, GhostDecl{f[0], f[1]})
+				cur.Ghost = append(cur.Ghost, GhostDecl{Name: f[0], Sort: f[1]})
 			}
 		case "held", "held_post":
 			// held EXPR r|w|none
@@ -419,7 +423,7 @@ func (cs *ContractSet) parseContractText(file, pkgName string, text string) erro
 			if len(f) > 1 {
 				sort = f[1]
 			}
-			cs.GhostVars = append(cs.GhostVars, GhostDecl{f[0], sort})
+			cs.GhostVars = append(cs.GhostVars, GhostDecl{Name: f[0], Sort: sort, Protocol: len(f) > 2 && f[2] == "protocol"})
 		case "typeinv":
 			// typeinv nonnil btpb.RowFilter_Chain_.Chain
 			f := strings.Fields(rest)
